@@ -91,3 +91,59 @@ Qed.
 
 Lemma own_file_shape fn name : own_file fn name -> length name = (length fn + 15)%nat.
 Proof. intros [d [E [L _]]]. subst. rewrite !app_length. simpl. lia. Qed.
+
+(* ---- histories of passes ---- *)
+Lemma in_apply_updates dir upd e : In e (apply_updates dir upd) <-> (In e dir /\ named (de_name e) upd = false) \/ In e upd.
+Proof.
+  unfold apply_updates. rewrite in_app_iff, filter_In, negb_true_iff. tauto.
+Qed.
+
+(* what a pass does to an entry depends only on the entry as the pass finds it (its current kind, name, mtime) and the clock:
+   exactly the must_delete entries of the directory as it is at the pass disappear *)
+Theorem pass_exact fn age dir p e :
+  In e (pass fn age dir p) <-> In e (apply_updates dir (ph_set p)) /\ ~ must_delete fn age (ph_now p) e.
+Proof. unfold pass. apply clear_expired_exact. Qed.
+
+(* an entry written or touched since the previous pass and young at this one survives it, whatever any earlier pass saw under that name *)
+Theorem touched_young_survives fn age dir p e :
+  In e (ph_set p) -> ph_now p - age * 3600 <= de_mtime e -> In e (pass fn age dir p).
+Proof.
+  intros Hin Hy. apply pass_exact. split.
+  - apply in_apply_updates. right. assumption.
+  - intros [_ [_ Hx]]. unfold expired in Hx. lia.
+Qed.
+
+Lemma run_phases_snoc fn age dir ps p : run_phases fn age dir (ps ++ [p]) = pass fn age (run_phases fn age dir ps) p.
+Proof. unfold run_phases. rewrite fold_left_app. reflexivity. Qed.
+
+(* over any history: after the last pass, an entry touched before it and young at it is there *)
+Theorem history_touched_young_survives fn age dir ps p e :
+  In e (ph_set p) -> ph_now p - age * 3600 <= de_mtime e -> In e (run_phases fn age dir (ps ++ [p])).
+Proof. intros. rewrite run_phases_snoc. apply touched_young_survives; assumption. Qed.
+
+(* over any history: whatever is in the directory at the end was put there (initially or by a change) and was never
+   a must_delete entry at the last pass; nothing appears from nowhere *)
+Theorem history_no_invention fn age ps : forall dir e,
+  In e (run_phases fn age dir ps) -> In e dir \/ exists p, In p ps /\ In e (ph_set p).
+Proof.
+  induction ps as [|p ps IH]; intros dir e H; [left; exact H|].
+  unfold run_phases in H. cbn [fold_left] in H. apply IH in H. destruct H as [H|[q [Hq He]]].
+  - apply pass_exact in H. destruct H as [H _]. apply in_apply_updates in H. destruct H as [[H _]|H].
+    + left. exact H.
+    + right. exists p. split; [left; reflexivity|exact H].
+  - right. exists q. split; [right; exact Hq|exact He].
+Qed.
+
+(* over any history: an entry nobody changes and that no pass finds expired stays; with nothing changed at all the
+   survivors of a history are the survivors of its individual passes *)
+Theorem history_untouched_kept fn age ps : forall dir e,
+  In e dir ->
+  (forall p, In p ps -> named (de_name e) (ph_set p) = false /\ ~ must_delete fn age (ph_now p) e) ->
+  In e (run_phases fn age dir ps).
+Proof.
+  induction ps as [|p ps IH]; intros dir e Hin Hall; [exact Hin|].
+  unfold run_phases. cbn [fold_left]. apply IH.
+  - apply pass_exact. destruct (Hall p (or_introl eq_refl)) as [Hn Hd]. split; [|exact Hd].
+    apply in_apply_updates. left. split; assumption.
+  - intros q Hq. apply Hall. right. exact Hq.
+Qed.
